@@ -496,7 +496,13 @@ impl Jwk {
     }
 
     if let Some(value) = self.key_ops() {
-      public.set_key_ops(value.iter().map(|op| op.invert()));
+      // Only invert the operations when going from a private to a public key, so that the projection of an
+      // already public key does not flip e.g. `verify` back to `sign`.
+      if self.is_public() {
+        public.set_key_ops(value.iter().copied());
+      } else {
+        public.set_key_ops(value.iter().map(|op| op.invert()));
+      }
     }
 
     if let Some(value) = self.alg() {
